@@ -490,6 +490,10 @@ func c40SaveObserved(prefix string, js []byte) string {
 }
 
 func runC40(c c40Case, r *ev.Rec) error {
+	if len(c.Series) == 0 || len(c.Ops) == 0 || c.Ops[0].Kind != "series" {
+		r.Discard() // a replay file of another part of C40
+		return nil
+	}
 	if c.Observed != nil {
 		o := c.Observed
 		c.Observed = nil
@@ -520,5 +524,5 @@ func runC40(c c40Case, r *ev.Rec) error {
 const c40Rule = "a queue manager (protocol 1.0 or 2.0, 1-4 initial shards, max_samples_per_send 1-8, capacity 1-10 batches, batch deadline 5-40ms, backoff 1-20ms, sample age limit on/off, external labels, 0-3 write relabel rules) is fed from one goroutine with a generated history of series/metadata records, float sample / histogram / float histogram / exemplar records (incl. data of relabel-dropped, never stored and checkpoint-forgotten series, data far beyond the age limit), reshard requests, pauses, checkpoint resets, then stopped; the fake endpoint answers by a generated script (ok / recoverable with optional Retry-After / non-recoverable / latency). Every datum carries its feed position in its value. Non-trivial: at least one reshard was accepted while fed data were still unanswered AND at least one recoverably failed request was retried; distinct by hash of the case."
 
 func TestC40(t *testing.T) {
-	ev.Check(t, "C40", c40Rule, genC40, runC40)
+	ev.Check(t, "C40", c40Rule, genC40, runC40, ev.Opts{Part: "direct"})
 }
